@@ -41,7 +41,13 @@ static void scn_schema(obs_t* o) {
 /* S2: writer */
 static void scn_write(int codec, obs_t* o) {
     hist_t h; table_hist(codec, &h); char* mem = NULL; size_t mlen = 0; FILE* f = open_memstream(&mem, &mlen); tbl_result r; tbl_exec(&h, f, NULL, -1, &r); fclose(f);
-    if (r.status != CARQUET_OK) ERR(o, r.where); else o->hash = mc_hash(mem, mlen, 7) ^ (uint64_t)mlen;
+    if (r.status != CARQUET_OK) { ERR(o, r.where);
+        /* the caller carried on after the reported failure. When every batch was accepted (the failure was reported by new_row_group, i.e. while a finished row group was
+         * being assembled) and close then reports success, close has written what it acknowledges: that must be a Parquet file (magic, footer, page chain at the recorded
+         * offsets, sizes and counts) for the reference reader. A caller that ignores a refused batch has an incomplete table by its own doing: not judged. */
+        if (r.closed && r.close_status == CARQUET_OK && r.refused_batches == 0) { ref_file rf; bool valid = ref_pq_read(&RA, (const uint8_t*)mem, mlen, &rf, REF_RD_CHECK_TOTALS) == 0; char why[120]; snprintf(why, sizeof why, "%s", valid ? "" : rf.err); ref_arena_free(&RA);
+            if (!valid) { char key[128]; snprintf(key, sizeof key, "close-ok-after-a-reported-failure.not-a-parquet-file.at-%s", mcf_fail_site()); mc_fail(key, "%s failed (status %d), the caller carried on and close returned OK for %zu bytes the reference reader rejects: %s", r.where, r.status, mlen, why); } } }
+    else o->hash = mc_hash(mem, mlen, 7) ^ (uint64_t)mlen;
     free(mem);
 }
 /* S2b: wide table (100 REQUIRED INT32 columns, 3 rows): the serialised footer passes 4 KiB and 8 KiB, so the Thrift output buffer grows while the
